@@ -1,8 +1,10 @@
 """C06 / C07: census of the *syntactic* panic sites of the engine proper, outside tests and outside
 the verif hooks:
 
-    expect   every `.expect("…")`                                   text = the message literal
-    unwrap   every `.unwrap()`                                       text = the receiver chain
+    unwrap   every `.unwrap()` AND every `.expect(…)`: one kind      text = the RECEIVER, i.e. the
+             method chain the call is applied to, whitespace removed (`state.chunk`,
+             `self.values.pop()`, `chunk.get_span_at(current_ip,k+1)`); the `expect` message is
+             NOT part of the key, so unwrap ↔ expect and rewording a message change nothing
     macro    `unreachable!` `panic!` `unimplemented!` `todo!` `assert!` `assert_eq!` `assert_ne!`
              (not `debug_assert*`)                                   text = macro!(first 60 chars)
     index    every index / slice expression `name[…]`, `a.b.c[…]`, `f()[…]`, `f(x)[…]`, `(e)[…]`,
@@ -35,10 +37,13 @@ that fn), sorted.  The enclosing fn is the innermost `fn` item whose brace block
 (macros defined inside a fn count as that fn).  No line numbers: moving code does not change the
 census, adding / removing / rewording a site does.  Props/PanicCensus{Add,Render,Builtins}.lean hold
 the hand-written account of every entry (which model outcome represents it and which theorem
-excludes it, or why it cannot fire) and prove `covers census account = true`: every census entry
-has account rows with the same (file, fn, kind, text) whose counts add up to at least the census
-count.  Removing a site or moving code keeps the theorem; a site ADDED to the Rust that the account
-does not know (a new text, a new kind in a function, one more occurrence) breaks it.
+excludes it, or why it cannot fire) and prove `coversF census account = true` (Model/PanicAccount.lean):
+THE KEY IS (file, kind, text) — for every key the census counts, summed over all functions of the
+file, at most as many occurrences as the account has rows for.  The fn field is informative only.
+Removing a site, moving code (also between functions of a file: extracting / inlining a helper),
+editing comments, reformatting, unwrap ↔ expect and rewording an `expect` message keep the theorem;
+a site ADDED to the Rust that the account does not know (a new text — for unwrap / expect a new
+receiver —, a new kind of site in a file, one more occurrence of a known text in the file) breaks it.
 
 What is NOT in the census (stated in DESIGN.md and in the `trusted` lines of props.d/C06.json and
 C07.json): arithmetic overflow / underflow / division (`+ - * / %` on integers, `next_power_of_two`:
@@ -121,7 +126,7 @@ def _match_paren(text, i):
 
 
 def _blank_noncode(src):
-    """Replace comments by spaces; keep string literal CONTENT (needed for expect messages) but
+    """Replace comments by spaces; keep string literal CONTENT (macro texts quote them) but
     neutralise braces/brackets inside strings and chars so brace matching works."""
     out = []
     i, n = 0, len(src)
@@ -254,8 +259,9 @@ PANICKING_METHODS = (
     "get_unchecked_mut"
 )
 SITE_RES = [
-    ("expect", re.compile(r"\.\s*expect\s*\(\s*(\"(?:[^\"\\]|\\.)*\")\s*\)")),
-    ("unwrap", re.compile(r"\.\s*unwrap\s*\(\s*\)")),
+    # `.unwrap()` and `.expect(anything)` are ONE kind, keyed by the receiver: turning an `unwrap`
+    # into an `expect("reason")`, or rewording the reason, does not change the census
+    ("unwrap", re.compile(r"\.\s*(?:unwrap\s*\(\s*\)|expect\s*\()")),
     ("macro", re.compile(r"\b(unreachable|panic|unimplemented|todo|assert|assert_eq|assert_ne)!\s*\(")),
     ("method", re.compile(r"\.\s*(" + PANICKING_METHODS + r")\s*\(")),
     # the kind is spelled `unsafe_block` and the text leaves the keyword out: check.py greps every
@@ -318,9 +324,7 @@ def census(repo, files):
         for kind, rx in SITE_RES:
             for m in rx.finditer(text):
                 fn = _enclosing(text, m.start(), headers)
-                if kind == "expect":
-                    txt = _unblank(m.group(1))
-                elif kind == "unwrap":
+                if kind == "unwrap":
                     txt = _receiver_before(text, m.start())
                 elif kind == "method":
                     close = _match_paren(text, m.end() - 1)
